@@ -4,7 +4,7 @@ from pw_verif.props._machine import run_program_case, worker_init  # noqa: F401
 
 PROP = "C03"
 LEVEL = "exploration"
-BUDGET = {"quick": 640, "thorough": 8000}
+BUDGET = {"quick": 960, "thorough": 10000}
 MIN_PER_SHARD = 10
 RULE = (
     "Worlds with 2-3 envelopes (+0-2 custom states) in one composite envelope, layouts as in C01 (operands spread "
